@@ -132,7 +132,7 @@ def summarize(prop, tier, seed, meta, results, wall, quiet=False):
             undecided.append("%s: %s" % (r['contract'], u))
         is_bounded = bool(r.get('bounded'))
         if is_bounded:
-            bounded_list.append({'contract': r['contract'], 'bound': r['bounded'],
+            bounded_list.append({'contract': r['contract'], 'bound': r['bounded'], 'excluded_inputs': r.get('excluded_inputs'),
                                  'obligations': sorted(o['name'] for o in r['obligations'].values() if o['kind'] != 'canary')})
         if not r['obligations'] and not r['undecided']:
             broken.append("%s generated no obligations" % r['contract'])
